@@ -4,6 +4,8 @@
 #include "../../sim/simkit.hpp"
 
 #include <memory>
+#include <vector>
+#include <initializer_list>
 #include <string>
 #include <typeinfo>
 
@@ -85,9 +87,44 @@ namespace
         NK& operator=(const NK&) = default;
         NK& operator=(NK&&) = default;
     };
-    constexpr int NT = 10;
-    const char* const tnames[NT] = {"int", "S1_inplace", "S2_inplace", "LG_heap", "TMV_heap", "AL_heap", "string_heap", "shared_ptr_inplace", "reflike_inplace", "NK_heap"};
+    // the reference-like payload again, but too large for the in-place buffer
+    struct RLH
+    {
+        int* p; unsigned char pad[24];
+        explicit RLH(int* q) noexcept : p(q), pad{} {}
+        RLH(const RLH& o) noexcept : p(o.p), pad{} {}
+        RLH(RLH&& o) noexcept : p(o.p), pad{} {}
+        RLH& operator=(const RLH& o) noexcept { *p = *o.p; return *this; }
+        RLH& operator=(RLH&& o) noexcept { *p = *o.p; return *this; }
+    };
+    // a tree-like payload with an initializer_list constructor: copying it with braces would wrap the source in a new node
+    struct Node
+    {
+        uint64_t id;
+        std::vector<Node> kids;
+        explicit Node(uint64_t v) : id(v) {}
+        Node(std::initializer_list<Node> l) : id(777777), kids(l) {}
+    };
+    // a payload whose (memberwise) assignment is not all-or-nothing: the second part's assignment can throw after the first
+    // part was assigned.  A container that keeps the strong guarantee never assigns payloads, it constructs and swaps.
+    struct Part
+    {
+        uint64_t v;
+        explicit Part(uint64_t x) : v(x) {}
+        Part(const Part& o) : v(o.v) { fault_point(FK_THROW); }
+        Part& operator=(const Part& o) { fault_point(FK_THROW); v = o.v; return *this; }
+    };
+    struct TwoPart
+    {
+        Part a, b; unsigned char pad[16];
+        explicit TwoPart(uint64_t id) : a(id), b(id), pad{} {}
+    };
+    using IP = const int*;     // a plain pointer payload (what an array or a function would decay to)
+    constexpr int NT = 14;
+    const char* const tnames[NT] = {"int", "S1_inplace", "S2_inplace", "LG_heap", "TMV_heap", "AL_heap", "string_heap", "shared_ptr_inplace", "reflike_inplace", "NK_heap",
+                                    "reflike_heap", "node_heap", "twopart_heap", "int_pointer_inplace"};
     inline bool is_tracked_type(int k) { return (k >= 1 && k <= 5) || k == 9; }
+    static_assert(sizeof(RLH) > 2 * sizeof(void*) && sizeof(Node) > 2 * sizeof(void*) && sizeof(TwoPart) > 2 * sizeof(void*), "heap payloads must not fit the in-place buffer");
     inline int tag_of_type(int k) { return 10 + k; }
     static_assert(sizeof(RL) <= 2 * sizeof(void*) && std::is_nothrow_move_constructible<RL>::value, "RL must be stored in place");
     static_assert(sizeof(S1) <= 2 * sizeof(void*), "S1 must fit the in-place buffer");
@@ -112,6 +149,10 @@ namespace
     template <> struct TypeOf<5> { using type = AL; static AL make(uint64_t id) { return AL(id); } static uint64_t id(const AL& v) { return v.id; } static void set(AL& v, uint64_t id) { v.id = id; } };
     template <> struct TypeOf<6> { using type = std::string; static std::string make(uint64_t id) { return sstr(id); } static uint64_t id(const std::string& v) { return sid(v); } static void set(std::string& v, uint64_t id) { v = sstr(id); } };
     template <> struct TypeOf<8> { using type = RL; static RL make(uint64_t id) { return RL(&g_cells[id % NCELLS]); } static uint64_t id(const RL& v) { return static_cast<uint64_t>(v.p - g_cells); } static void set(RL& v, uint64_t id) { v.p = &g_cells[id % NCELLS]; } };
+    template <> struct TypeOf<10> { using type = RLH; static RLH make(uint64_t id) { return RLH(&g_cells[id % NCELLS]); } static uint64_t id(const RLH& v) { return static_cast<uint64_t>(v.p - g_cells); } static void set(RLH& v, uint64_t id) { v.p = &g_cells[id % NCELLS]; } };
+    template <> struct TypeOf<11> { using type = Node; static Node make(uint64_t id) { return Node(id); } static uint64_t id(const Node& v) { return v.kids.empty() ? v.id : 888888; } static void set(Node& v, uint64_t id) { v.id = id; } };
+    template <> struct TypeOf<12> { using type = TwoPart; static TwoPart make(uint64_t id) { return TwoPart(id); } static uint64_t id(const TwoPart& v) { return v.a.v == v.b.v ? v.a.v : 999999; } static void set(TwoPart& v, uint64_t id) { v.a.v = id; v.b.v = id; } };
+    template <> struct TypeOf<13> { using type = IP; static IP make(uint64_t id) { return &g_cells[id % NCELLS]; } static uint64_t id(const IP& v) { return static_cast<uint64_t>(v - g_cells); } static void set(IP& v, uint64_t id) { v = &g_cells[id % NCELLS]; } };
     template <> struct TypeOf<9> { using type = NK; static NK make(uint64_t id) { return NK(id); } static uint64_t id(const NK& v) { return v.id; } static void set(NK& v, uint64_t id) { v.id = id; } };
     template <> struct TypeOf<7> { using type = SP; static SP make(uint64_t id) { return std::make_shared<int>(static_cast<int>(id)); } static uint64_t id(const SP& v) { return v ? static_cast<uint64_t>(*v) : 0; } static void set(SP& v, uint64_t id) { v = std::make_shared<int>(static_cast<int>(id)); } };
 
@@ -128,7 +169,11 @@ namespace
         case 6: f(std::integral_constant<int, 6>()); break;
         case 7: f(std::integral_constant<int, 7>()); break;
         case 8: f(std::integral_constant<int, 8>()); break;
-        default: f(std::integral_constant<int, 9>()); break;
+        case 9: f(std::integral_constant<int, 9>()); break;
+        case 10: f(std::integral_constant<int, 10>()); break;
+        case 11: f(std::integral_constant<int, 11>()); break;
+        case 12: f(std::integral_constant<int, 12>()); break;
+        default: f(std::integral_constant<int, 13>()); break;
         }
     }
 
@@ -174,7 +219,7 @@ namespace
         [[noreturn]] void viol(const char* cls, const char* oracle, const std::string& msg) { fail(cls, std::string("C06/") + oracle + "/" + tail, msg); }
         void lifetimes() { try { raise_pending(); } catch (Violation& v) { v.sig += "/" + tail; throw; } }
         uint64_t fresh() { return next_id++; }
-        static uint64_t canon(int k, uint64_t id) { return k == 8 ? id % NCELLS : id; }    // a reference-like value is the cell it designates
+        static uint64_t canon(int k, uint64_t id) { return (k == 8 || k == 10 || k == 13) ? id % NCELLS : id; }    // a reference-like value is the cell it designates
         const char* mname(int i) const { return model[i].empty ? "empty" : tnames[model[i].type]; }
 
         struct Scope
@@ -390,7 +435,7 @@ namespace
             int t = st.actor % 3;
             int p = static_cast<int>(st.c % 3);
             bool free_fn = st.b & 1;
-            bool inplace_t = !model[t].empty && (model[t].type <= 2 || model[t].type == 7 || model[t].type == 8);
+            bool inplace_t = !model[t].empty && (model[t].type <= 2 || model[t].type == 7 || model[t].type == 8 || model[t].type == 13);
             std::string var = std::string(free_fn ? "std_" : "member_") + (p == t ? std::string("self_") + mname(t) : std::string(mname(t)) + "_" + mname(p));
             Scope sc(*this, st, "swap", var);
             MA a = model[t], b = model[p];
@@ -404,7 +449,7 @@ namespace
             else
             {
                 model[t] = b; model[p] = a;
-                bool ia = !a.empty && (a.type <= 2 || a.type == 7 || a.type == 8), ib = !b.empty && (b.type <= 2 || b.type == 7 || b.type == 8);
+                bool ia = !a.empty && (a.type <= 2 || a.type == 7 || a.type == 8 || a.type == 13), ib = !b.empty && (b.type <= 2 || b.type == 7 || b.type == 8 || b.type == 13);
                 if (!a.empty && !b.empty && ia != ib) SIM_PROBE("swap_in_place_with_heap");
                 if (!a.empty && !b.empty && a.type == b.type) SIM_PROBE(ia ? "swap_same_type_in_place" : "swap_same_type_heap");
                 if (a.empty != b.empty) SIM_PROBE("swap_empty_with_nonempty");
@@ -480,6 +525,14 @@ namespace
             }
             if (ok && should && got != model[t].id) viol("model", "cast", "any_cast returned value " + std::to_string(got) + ", stored " + show(model[t]));
             if (!addr_ok) viol("model", "cast", "any_cast does not designate the stored object");
+            {
+                // array and function types decay to pointers, but an any never holds an array or a function: such a cast target
+                // matches nothing, whatever pointer the any holds
+                const int (*pa)[2] = xtl::any_cast<const int[2]>(&ca);
+                int (*pb)[3] = xtl::any_cast<int[3]>(&a);
+                if (pa != nullptr || pb != nullptr) viol("model", "cast", std::string("pointer any_cast with an array type succeeded on ") + show(model[t]));
+                if (!model[t].empty && model[t].type == 13) SIM_PROBE("array_cast_on_pointer_payload");
+            }
             if (qual) SIM_PROBE("cast_with_cv_qualified_type");
             if (!should && !model[t].empty) SIM_PROBE("cast_with_other_type");
             if (form == 3 && should)
@@ -505,7 +558,7 @@ namespace
             no_nonconst_copy(nc0, "copy assignment of an any");
             model[c] = model[t];
             uint64_t id = canon(model[t].type, fresh());
-            if (model[t].type == 8 && id == model[t].id) id = (id + 1) % NCELLS;
+            if ((model[t].type == 8 || model[t].type == 10 || model[t].type == 13) && id == model[t].id) id = (id + 1) % NCELLS;
             with_type(model[t].type, [&](auto K) {
                 using T = typename TypeOf<decltype(K)::value>::type;
                 T& r = xtl::any_cast<T&>(slot[c].get());
@@ -621,5 +674,5 @@ namespace
         catch (...) { clear_pending(); try { w->teardown(); } catch (...) {} clear_pending(); throw; }
     }
 
-    RegisterCfg reg("int_S1_S2_LG_TMV_AL_string_sharedptr_reflike_NK", gen, exec, 1, false);
+    RegisterCfg reg("int_S1_S2_LG_TMV_AL_string_sharedptr_reflike_NK_reflikeheap_node_twopart_intptr", gen, exec, 1, false);
 }
